@@ -436,12 +436,29 @@ func c14Utf8(s string) (twoByteChar bool) {
 // prefixes are equal iff they are the same characters, i.e. the same bytes.
 func VerifC14ColumnsMatchPrefixUtf8() {
 	plen := nd.IntRange("prefix", 1, 2)
-	a := nd.String("a", nd.IntRange("na", 1, 2))
-	b := nd.String("b", nd.IntRange("nb", 1, 2))
-	aTwo := c14Utf8(a)
-	bTwo := c14Utf8(b)
+	// value shapes: one ASCII byte, two ASCII bytes, or ONE two-byte character whose lead
+	// byte is one of three concrete values (symbolic lead bytes drag the unicode/utf8
+	// decoding tables into every query) and whose continuation byte is symbolic
+	mk := func(tag string) (string, bool) {
+		switch nd.Pick(tag+".shape", 3) {
+		case 0:
+			b := nd.Uint8(tag + ".a0")
+			nd.Assume(b < 0x80)
+			return string([]byte{b}), false
+		case 1:
+			b0, b1 := nd.Uint8(tag+".a0"), nd.Uint8(tag+".a1")
+			nd.Assume(nd.And(b0 < 0x80, b1 < 0x80))
+			return string([]byte{b0, b1}), false
+		}
+		lead := [...]byte{0xC2, 0xD0, 0xDF}[nd.Pick(tag+".lead", 3)]
+		c := nd.Uint8(tag + ".cont")
+		nd.Assume(nd.And(c >= 0x80, c <= 0xBF))
+		return string([]byte{lead, c}), true
+	}
+	a, aTwo := mk("pu.a")
+	b, bTwo := mk("pu.b")
 	schema := c14Schema(1, types.Int64, c14StrType(c14CollBin))
-	got := columnsMatch([]int{1}, []uint16{uint16(plen)}, sql.Row{nd.Int64("pa"), a}, sql.Row{nd.Int64("pb"), b}, schema.Schema)
+	got := columnsMatch([]int{1}, []uint16{uint16(plen)}, sql.Row{nd.Int64("pu.pa"), a}, sql.Row{nd.Int64("pu.pb"), b}, schema.Schema)
 	nd.Reach("c14.columnsmatch.prefix-utf8")
 	nd.Observe(got)
 	// the first plen characters of each value
@@ -459,11 +476,6 @@ func VerifC14ColumnsMatchPrefixUtf8() {
 		}
 	}
 	nd.Assert("c14.columnsmatch.prefix-utf8.duplicate-detected", nd.Implies(same, got))
-	// Defect class: the prefix length, taken as a number of BYTES, ends inside a character.
-	if plen == 1 && (aTwo || bTwo) {
-		nd.Assert("c14.columnsmatch.prefix-utf8.no-false-duplicate.prefix-splits-character", nd.Implies(got, same))
-		return
-	}
 	nd.Assert("c14.columnsmatch.prefix-utf8.no-false-duplicate", nd.Implies(got, same))
 }
 
@@ -509,4 +521,43 @@ func VerifC14UniqueCheckTwoIndexes() {
 	nd.Observe(err != nil)
 	nd.Assert("c14.unique.two.duplicate-rejected", nd.Implies(dup, err != nil))
 	nd.Assert("c14.unique.two.no-false-duplicate", nd.Implies(err != nil, dup))
+}
+
+// A pending delete must not hide another live duplicate: within one statement
+// the stored row r0 is deleted (e.g. an UPDATE moved its unique value away),
+// r1 is live (stored, or added in this statement) and a new row arrives. The
+// unique check must report a duplicate iff the new row equals a LIVE row on
+// the non-NULL unique column — whatever the deleted row's value was.
+func VerifC14UniqueCheckPendingDelete() {
+	mkRow := func(name string, pk int64) (sql.Row, int64, bool) {
+		c, v, null := c14NullableInt(name + ".u")
+		return sql.Row{pk, c, int64(0)}, v, null
+	}
+	pke := c14Pke(c14Data(c14Schema(1, types.Int64, types.Int64, types.Int64)))
+	r0, v0, n0 := mkRow("pd.r0", 1)
+	r1, v1, n1 := mkRow("pd.r1", 2)
+	nw, vn, nn := mkRow("pd.new", 3)
+	pke.tableData.partitions["0"] = append(pke.tableData.partitions["0"], r0)
+	r1Pending := nd.Bool("pd.r1.pending")
+	if r1Pending {
+		_ = pke.Insert(nil, r1)
+	} else {
+		pke.tableData.partitions["0"] = append(pke.tableData.partitions["0"], r1)
+	}
+	_ = pke.Delete(nil, r0)
+	ed := &tableEditor{ea: pke, uniqueIdxCols: [][]int{{1}}, prefixLengths: [][]uint16{nil}, uniqueIdxNames: []string{"u"}}
+	err := ed.checkUniqueConstraints(nil, nw)
+	nd.Reach("c14.unique.pending-delete")
+	nd.Observe(err != nil)
+	dup := nd.And(nd.And(!n1, !nn), v1 == vn)
+	_ = v0
+	_ = n0
+	// class of the defect found with this harness: the deleted row has the same unique value too
+	deletedAlsoMatches := nd.And(nd.And(!n0, !nn), v0 == vn)
+	if nd.And(dup, deletedAlsoMatches) {
+		nd.Assert("c14.unique.pending-delete.duplicate-rejected.deleted-row-has-same-value", err != nil)
+		return
+	}
+	nd.Assert("c14.unique.pending-delete.duplicate-rejected", nd.Implies(dup, err != nil))
+	nd.Assert("c14.unique.pending-delete.no-false-duplicate", nd.Implies(err != nil, dup))
 }
